@@ -43,15 +43,21 @@ def _via(w, src, tool=ID_TOOL, prefix="vfid"):
 
 
 def prune_unconnected(c):
-    """remove, in place, every step / nested-workflow output / nested-workflow input that cannot influence the
-    top-level outputs"""
+    """remove, in place, every step / nested-workflow output / nested-workflow input / unread `out` entry that
+    cannot influence the top-level outputs; an unread output of a LOOP step that the loop itself needs is instead
+    carried to the top level through extra outputs typed Any (so that something reads it)."""
     items = unconnected(c["wf"])
+    n_extra = [0]
     for path, what, name in items:
-        w = c["wf"]
-        parent_step = None
-        for p in [x for x in path.split("/") if x]:
-            parent_step = w["steps"][p]
-            w = parent_step["run"]
+        parts = [x for x in path.split("/") if x]
+        chain = [c["wf"]]
+        steps = []
+        for p in parts:
+            st = chain[-1]["steps"][p]
+            steps.append(st)
+            chain.append(st["run"])
+        w = chain[-1]
+        parent_step = steps[-1] if steps else None
         if what == "step":
             w["steps"].pop(name, None)
         elif what == "output":
@@ -62,6 +68,21 @@ def prune_unconnected(c):
             w["inputs"].pop(name, None)
             if parent_step is not None:
                 parent_step["in"].pop(name, None)
+        elif what == "out":
+            sn, o = name.split("/")
+            if sn in w["steps"]:
+                w["steps"][sn]["out"] = [x for x in w["steps"][sn]["out"] if x != o]
+        elif what == "loopout":
+            src = name
+            while f"vfu{n_extra[0]}" in c["wf"]["outputs"]:
+                n_extra[0] += 1
+            key = f"vfu{n_extra[0]}"
+            n_extra[0] += 1
+            for depth in range(len(chain) - 1, -1, -1):
+                chain[depth]["outputs"][key] = {"type": ANY, "outputSource": src}
+                if depth > 0:
+                    steps[depth - 1]["out"] = list(steps[depth - 1]["out"]) + [key]
+                    src = f"{parts[depth - 1]}/{key}"
     return bool(items)
 
 
